@@ -297,6 +297,7 @@ func (w *Workspace) buildIndexFromResolvedLocked() {
 func (w *Workspace) updateResolvedLocked(path string, journal *ast.Journal) {
 	if w.resolved == nil {
 		w.resolved = include.NewResolvedJournal(nil)
+		w.resolved.PrimaryPath = w.rootJournalPath
 	}
 	if path == w.rootJournalPath {
 		w.resolved.Primary = journal
